@@ -274,12 +274,19 @@ class MovingWindow(BackgroundService):
                     f"Timestamp {key} is out of range [{self._buffer.oldest_timestamp}, "
                     f"{self._buffer.newest_timestamp}]"
                 )
+            if self._buffer.is_missing(self._buffer.normalize_timestamp(key)):
+                # The slot was skipped (never written in this round of the ring
+                # buffer): the raw storage still holds an evicted or
+                # uninitialized value.
+                return np.nan
             return self._buffer[self._buffer.to_internal_index(key)]
 
         if isinstance(key, int):
             _logger.debug("Returning value at index %s ", key)
             timestamp = self._buffer.get_timestamp(key)
             assert timestamp is not None
+            if self._buffer.is_missing(timestamp):
+                return np.nan
             return self._buffer[self._buffer.to_internal_index(timestamp)]
 
         raise TypeError("Key has to be either a timestamp or an integer.")
